@@ -156,7 +156,7 @@ def rtc_pivchol(dtname, fams, tier):
                 continue
             seed += 1
             torch.set_default_dtype(torch.float64 if (seed % 2 == 0 and dt == torch.float32) else torch.float32)  # default dtype != operator dtype in half of the cases (one OS process per unit: no restore needed)
-            g = K.zoo.gen(50000 + seed)
+            g = K.gen(50000 + seed)
             A = _family(K, g, fam, batch, n, dt).to(dt)
             A64 = A.double()
             Ac = A.clone()
@@ -197,7 +197,7 @@ def rtc_pivchol_mixed(tier):
 
     rec = Recorder(PID)
     for dtname, dt in K.DT.items():
-        g = K.zoo.gen(123)
+        g = K.gen(123)
         for n in ([3, 5, 9, 20] if tier == "quick" else [3, 4, 5, 7, 9, 14, 20, 33]):
             gen_ = K.spd(g, (), n, "geometric", 100.0, torch.float64)
             ones = torch.ones(n, n, dtype=torch.float64)
@@ -238,7 +238,7 @@ def rtc_pivchol_zoo(case_names, tier):
     zoo = K.zoo
 
     rec = Recorder(PID)
-    for label, c, op, dense in zoo.instances(tier, names=case_names, psd=True, square=True):
+    for label, c, op, dense in zoo.instances(tier, names=case_names, psd=True, square=True, seed=K.SEED):
         if op is None:
             continue
         dt = dense.dtype
@@ -267,16 +267,14 @@ def rtc_permutation(tier):
 
     K = kit()
     torch = K.torch
-    from linear_operator.operators import DenseLinearOperator, to_linear_operator
+    from linear_operator.operators import DenseLinearOperator
     from linear_operator.utils.permutation import apply_permutation, inverse_permutation
 
     rec = Recorder(PID)
-    g = K.zoo.gen(99)
+    g = K.gen(99)
     for dtname, dt in K.DT.items():
         for n, batch in itertools.product([1, 2, 3, 5, 8] if tier == "quick" else [1, 2, 3, 4, 5, 8, 13], K.BATCHES + [(3, 1, 2)]):
             M = K.zoo.rn(g, *batch, n, n, dtype=dt)
-            nb = int(math.prod(batch)) if batch else 1
-
             def perms(m, bshape):
                 nbb = int(math.prod(bshape)) if bshape else 1
                 p = torch.stack([torch.randperm(n, generator=g)[:m] for _ in range(nbb)])
@@ -337,7 +335,7 @@ def rtc_precond(dtname, tier):
             if tier == "quick" and (seed % 2) and n > 5:
                 continue
             torch.set_default_dtype(torch.float64 if (seed % 2 == 0 and dt == torch.float32) else torch.float32)  # default dtype != operator dtype in half of the cases (one OS process per unit: no restore needed)
-            g = K.zoo.gen(60000 + seed)
+            g = K.gen(60000 + seed)
             kb, nbatch = batch, batch
             if nk.startswith("broadcast_noise_batch"):  # kernel unbatched, noise batched
                 if not batch:
